@@ -207,6 +207,8 @@ static RunResult exec_sched(const Plan &p)
 	std::string dir = scratch_dir();
 	std::string layer = p.gets("layer", "public");
 	int pool_size = (int)p.geti("pool", 2);
+	// (pool -1 comes from the minimiser's 'pool -> none' simplification; here it makes a pool without an upper bound)
+	bool unbounded_pool = pool_size < 0;
 	bool shared = p.geti("shared", 1) != 0;
 	std::vector<Task> tasks(MAXTASK);
 	std::vector<bool> used(MAXTASK, false);
@@ -316,7 +318,7 @@ static RunResult exec_sched(const Plan &p)
 		uint32_t nhandlers = layer == "api" ? (uint32_t)ntask : (uint32_t)npooled;
 		PoolThreads pt = pool_threads(st);
 		if (!pt.named && st.threads_created > ntask) res.probes["start-routine-names-unknown"]++;
-		std::string wb = worker_bound_broken(st, limit, (uint32_t)ntask, nhandlers);
+		std::string wb = unbounded_pool ? std::string() : worker_bound_broken(st, limit, (uint32_t)ntask, nhandlers);
 		if (!wb.empty()) res.fail("SCHED", "WORKER-COUNT", wb);
 		if (pt.named && pt.workers_created > 0 && pt.worker_max == limit && limit > 0) res.probes["pool-saturated"]++;
 		if (pt.named && pt.workers_created > 0) res.probes["workers-created"] += pt.workers_created;
